@@ -150,7 +150,7 @@ PROPS = {
             "the steps are atomic operations of the semaphore, so interleavings of the accept loop with ending handlers are exactly the histories theorem_slots quantifies over; no scheduler is modelled and none is needed for the counters",
             "R-outline (pre-pass): the async block handed to tokio::spawn becomes an async method verif_conn_task(handler) of the same impl block, moved token for token; tokio::spawn receives its future. Handler::run itself is NOT re-verified here (signature only): that it never touches the semaphore is by inspection (its only use of limit_connections is the field's existence)",
             "the only exit of listen is the abort after accept failed beyond the back-off limit: there one permit has been taken and is owned by nobody (C15.listen.abort_exit states exactly that); the server is giving up at that point",
-            "NOT covered: Server::new (creates the semaphore with conf.max_connections permits: the initial state of theorem_slots; one line, not extracted because of format! / TcpListener::bind), a task that never ends (it keeps its slot, legitimately), panics are covered only through TDROP, and max_connections == 0 (then nothing is ever served)",
+            "Server::new is verified too: the semaphore is created with exactly conf.max_connections permits and nothing is owed (C15.new.permits_are_max_connections) -- the initial state of theorem_slots (rules: `&format!(host:port)` -> a shim, Semaphore::new gets the ghost argument). NOT covered: Server::run (select over the accept loop and the shutdown future, then waiting for the handlers through the mpsc channel), a task that never ends (it keeps its slot, legitimately), panics are covered only through TDROP, and max_connections == 0 (then nothing is ever served)",
             "bounded companion on the real Server over loopback TCP (thorough tier / witness; never counted as proved): with max_connections = 2, connections that end by clean close, in the middle of a frame, after a malformed command and after a protocol error come and go; afterwards two connections must be served concurrently while a third is not served until one of them closes",
         ],
     },
@@ -168,10 +168,11 @@ PROPS = {
     },
     "C17": {
         "units": ["store"], "label_prefixes": ["C17."], "level": "proof",
-        "trusted": ["T1", "T4", "T8", "T11", "T12", "T13", "T13s", "TLOG", "TARC", "RW", "DERIVE"],
+        "trusted": ["T1", "T4", "T8", "T11", "T12", "T13", "T13s", "TLOG", "TARC", "TDROP", "RW", "DERIVE"],
         "assumptions": [
             "SCOPE: the first two clauses only -- closed ==> every Handle operation returns Err(Closed) and leaves the World unchanged; close sets the flag (R-interior: the AtomicCell store through &self is read as &mut self)",
-            "NOT covered: the background thread exiting promptly, thread / fd accumulation over open/close cycles, Drop for Bitcask (Verus models neither Drop nor threads)",
+            "Drop for Bitcask is verified as an ordinary method (R-drop): it sets the closed flag (C17.drop.closes_the_store); that Rust calls it when the store object goes away is TDROP, and that the flag it sets is the one every clone of the Handle reads is TARC",
+            "NOT covered: the background thread exiting promptly, thread / fd accumulation over open/close cycles (Verus models neither threads nor file descriptors)",
         ],
     },
     "C19": {
